@@ -544,7 +544,7 @@ class RawFileSystem(FileSystem[str]):
 
     def walk_folder(self, folder: str = '') -> Iterator[File[Self]]:
         """Yield files in a folder."""
-        path = self._resolve_path(folder)
+        path = self._resolve_path(folder.replace('\\', '/'))
         for dirpath, dirnames, filenames in os.walk(path):
             for file in filenames:
                 rel_path = os.path.relpath(
@@ -560,7 +560,7 @@ class RawFileSystem(FileSystem[str]):
         """
         if isinstance(name, File):
             name = self._get_data(name)
-        return open(self._resolve_path(name), encoding=encoding)
+        return open(self._resolve_path(name.replace('\\', '/')), encoding=encoding)
 
     def open_bin(self, name: Union[str, File[Self]]) -> BinaryIO:
         """Open a file in bytes mode or raise FileNotFoundError.
@@ -569,15 +569,16 @@ class RawFileSystem(FileSystem[str]):
         """
         if isinstance(name, File):
             name = self._get_data(name)
-        return open(self._resolve_path(name), mode='rb')
+        return open(self._resolve_path(name.replace('\\', '/')), mode='rb')
 
     def _file_exists(self, name: str) -> bool:
         # We don't need this, but it should match other filesystems.
-        return os.path.isfile(self._resolve_path(name))
+        return os.path.isfile(self._resolve_path(name.replace('\\', '/')))
 
     def _get_file(self, name: str) -> File[Self]:
+        # Both slashes are separators, also where the OS only knows '/'.
+        name = name.replace('\\', '/')
         if os.path.isfile(self._resolve_path(name)):
-            name = name.replace('\\', '/')
             return File(self, name, name)
         raise FileNotFoundError(name)
 
